@@ -58,9 +58,7 @@ MUTANTS = [
            "        except Exception:\n            self.exit()\n            raise", {"C01.R2"}, canary=True),
     Mutant("doist-ado-double-exit", M, "Doist.ado", "                except KeyboardInterrupt:  # Forced shutdown due to SIGINT, use CNTL-C to shutdown from shell\n                    break",
            "                except KeyboardInterrupt:  # Forced shutdown due to SIGINT, use CNTL-C to shutdown from shell\n                    self.exit()\n                    break", {"C01.R2"}),
-    Mutant("silent-doist-exit-break-at-marker", M, "Doist.exit", "                continue  # skip marker", "                break", silent=True),
-    Mutant("doist-exit-break-at-marker-unsorted", M, "Doist.exit", "        deeds.clear()\n        deeds.extend(ordered)\n\n        while(deeds):  # .close each remaining dog in deeds in reverse order\n            dog, retime, doer = deeds.pop()  # pop it off in reverse (right side)\n            if not dog:  # marker deed\n                continue  # skip marker",
-           "        while(deeds):  # .close each remaining dog in deeds in reverse order\n            dog, retime, doer = deeds.pop()  # pop it off in reverse (right side)\n            if not dog:  # marker deed\n                break", {"C01.R3"}, canary=True),
+    Mutant("doist-exit-break-at-marker", M, "Doist.exit", "                continue  # skip marker", "                break", {"C01.R3"}, canary=True),
     Mutant("dodoer-exit-skip-close", M, "DoDoer.exit", "            if not dog:  # marker deed\n", "            if not dog or not retime:\n", {"C01.R3"}),
     Mutant("doist-exit-if-not-while", M, "Doist.exit", "        while(deeds):", "        while len(deeds) > 1:", {"C01.R3"}),
     Mutant("doist-recur-reappend-finished", M, "Doist.recur", "                        doer.__func__.done = ex.value if ex.value is not None else doer.done\n",
